@@ -53,6 +53,16 @@ def sweeps(quick):
                     add('SLICE ' + t[0], [PUSH(t, a), PUSH(T.NAT, l), PUSH(T.NAT, o), I('SLICE')])
         for lst in ([], [pool[1]], pool[:3], pool):
             add('CONCAT-list ' + t[0], [PUSH(T.list_(t), lst), I('CONCAT')])
+    # bitwise / shift instructions on byte strings of different lengths
+    BB = [b'', b'\xff', b'\x0f\xf0', b'\xab\xcd\xef', b'\x00\x00\x01']
+    for a in BB:
+        add('NOT bytes', [PUSH(T.BYTES, a), I('NOT')])
+        for b in BB:
+            for op in ('AND', 'OR', 'XOR'):
+                add(op + ' bytes', [PUSH(T.BYTES, b), PUSH(T.BYTES, a), I(op)])
+        for n in (0, 1, 7, 8, 9, 17):
+            add('LSL bytes', [PUSH(T.NAT, n), PUSH(T.BYTES, a), I('LSL')])
+            add('LSR bytes', [PUSH(T.NAT, n), PUSH(T.BYTES, a), I('LSR')])
     # hashes
     for h in ('BLAKE2B', 'SHA256', 'SHA512', 'SHA3', 'KECCAK'):
         for b in BYTS + [b'a' * 135, b'a' * 136, b'a' * 137, b'\x00' * 200]:
